@@ -50,7 +50,15 @@ func rulePXBounds(c *Ctx) []Obligation {
 		if f.Blocks == nil || c.isGeneratedFunc(f) {
 			continue
 		}
+		if f.TypeParams().Len() > 0 && f.Origin() == nil {
+			continue // a generic body: judged through its instances
+		}
 		roots = append(roots, f)
+	}
+	for _, f := range c.CG().Funcs {
+		if f.Origin() != nil && f.Blocks != nil && f.Pkg == nil && c.inModule(f) && !c.isGeneratedFunc(f) && !c.isTestPos(f.Pos()) {
+			roots = append(roots, f)
+		}
 	}
 	sort.Slice(roots, func(i, j int) bool { return fname(roots[i]) < fname(roots[j]) })
 	nPaths := 0
